@@ -254,7 +254,7 @@ impl Prop for C06 {
     fn rule(&self) -> String {
         "Generated strings: (1) grammar-derived literals (sign, 0..=80 integer digits, 0..=45 fraction digits, exponents with sign, leading zeros, up to 30 exponent digits), digit strings constructed around 10^38, 2^127, 2^128, digit strings 2^k + d (k in 8,16,31,32,53,63,64,96,127,128) extended by free digits with the radix point at every position and leading integer / fraction zeros, k*2^128+[10^38,2^127) (39-digit values that wrap), 2^256, 40+ digits, with radix points and compensating exponents, coefficient*10^exp at the i128 edge, fraction-exponent in {17,18,19}; \
          (2) near misses: one or two insert/delete/replace edits of a valid literal with digits, signs, '.', 'e', '_', blanks, NUL, non-ASCII digits, multi-byte characters; (3) arbitrary Unicode strings and lossy-decoded random bytes, long inputs (up to ~6000 bytes: thousands of leading zeros, fraction zeros, exponent zeros, digits); (4) a fixed list of corner literals. \
-         from_str, TryFrom<&str>, TryFrom<String> and fpdec_core::str_to_dec must agree with a character-level reference parser with big-integer accumulation (Ok iff in grammar, scale <= 18, |coefficient| <= 2^127-1; exact coefficient and scale; Empty iff empty). \
+         from_str (as a path call, through str::parse, through the FromStr trait by name and from generic code), TryFrom<&str>, TryFrom<String> and fpdec_core::str_to_dec must agree with a character-level reference parser with big-integer accumulation (Ok iff in grammar, scale <= 18, |coefficient| <= 2^127-1; exact coefficient and scale; Empty iff empty). \
          Memory safety: every string is parsed twice more from a buffer that ends exactly at (resp. starts right after) a PROT_NONE guard page, so an out-of-bounds read faults; a SIGSEGV handler turns the fault into a replay file and a VIOLATION line. \
          Non-trivial: >= 20 significant digits, or an exponent, or a near miss, or within 12 of a 2^127 / 2^128 / 10^38 boundary. Distinct: hash of the string."
             .into()
@@ -389,6 +389,14 @@ impl Prop for C06 {
         let r1: R = catch(|| Decimal::from_str(s));
         let r2: R = catch(|| Decimal::try_from(s));
         let r3: R = catch(|| Decimal::try_from(s.to_string()));
+        // the FromStr trait reached in the ways users reach it (a new inherent from_str would win
+        // for the path call above, but not for these)
+        let r6: R = catch(|| s.parse::<Decimal>());
+        let r7: R = catch(|| <Decimal as FromStr>::from_str(s));
+        fn generic_parse<T: FromStr>(s: &str) -> Result<T, T::Err> {
+            s.parse::<T>()
+        }
+        let r8: R = catch(|| generic_parse::<Decimal>(s));
         // ---- guard-page placements (fault = out-of-bounds read)
         let r4: R = guard::with_guarded(s, |g| catch(|| Decimal::from_str(g)));
         let r5: R = guard::with_guarded_front(s, |g| catch(|| Decimal::from_str(g)));
@@ -429,7 +437,7 @@ impl Prop for C06 {
             }
         }
 
-        for (name, r) in [("from_str", &r1), ("try_from(&str)", &r2), ("try_from(String)", &r3), ("from_str@page-end", &r4), ("from_str@page-start", &r5)] {
+        for (name, r) in [("from_str", &r1), ("try_from(&str)", &r2), ("try_from(String)", &r3), ("from_str@page-end", &r4), ("from_str@page-start", &r5), ("str::parse::<Decimal>", &r6), ("<Decimal as FromStr>::from_str", &r7), ("generic T: FromStr", &r8)] {
             ctx.sub();
             let shown = match r {
                 Ok(Ok(d)) => format!("Ok({} @{})", d.coefficient(), d.n_frac_digits()),
